@@ -1,0 +1,14 @@
+//go:build verif
+
+package consensus
+
+// Verification hook (build tag "verif" only; see /verif/DESIGN.md section 7, H1).
+// verifStepHook, when a test installs it, is called at the end of every handleMsg /
+// handleTimeout call, after the state change and while cs.mtx is still held.
+var verifStepHook func(cs *State, mi *msgInfo, ti *timeoutInfo)
+
+func verifStep(cs *State, mi *msgInfo, ti *timeoutInfo) {
+	if h := verifStepHook; h != nil {
+		h(cs, mi, ti)
+	}
+}
